@@ -33,7 +33,7 @@ CHECKS = {
          "Get/GetKey consistency in both directions over the whole key and value tables, no shared value, Size=len(Keys)=len(Values) and equality with the eviction model after every step, value tables small enough to force every collision kind, coarsened key and value comparators. " + DEGENERATE, "4 C10"),
  "C11": ("exploration", "deterministic simulation of the persistence boundary: checkpoint, crash-restart into a fresh container, forked drains (durability round trip)",
          "All 21 kinds under seeded histories with checkpoint and crash-restart as generated operations: at every checkpoint ToJSON must be valid JSON of the right top-level kind and the same document (token sequence; multiset for hash kinds) as json.Marshal(container); at every restart the document is reloaded (FromJSON / UnmarshalJSON / json.Unmarshal) into a fresh container of the same configuration which must equal the model and the live container (size, content, order) and drain (Pop/Dequeue) like the live one; the run then continues on the restarted container; drains are compared with full element identity; documents returned by ToJSON are held and must not change later; one run in six uses struct, map, slice, pointer and any values in the key-value containers. Ring capacities 1-9 incl. wrapped and partial states, B-tree orders to 256, int and string keys, values textually equal to keys. Sampled.", "4 C11"),
- "C12": ("fault_enumeration", "deterministic simulation with fault injection on the snapshot store (17 fault kinds on the bytes between ToJSON and FromJSON), thorough tier enumerates every truncation offset",
+ "C12": ("fault_enumeration", "deterministic simulation with fault injection on the snapshot store (18 fault kinds on the bytes between ToJSON and FromJSON), thorough tier enumerates every truncation offset",
          "Loads onto live containers with arbitrary prior content of bytes that are intact, stale (lost write), of the wrong document kind, torn, bit-flipped, structurally overwritten, span-dropped/duplicated/swapped, garbage-appended, zero-filled, wrongly typed at an element, duplicated, re-encoded (whitespace, \\u escapes) or partially-structured. Error => observable state (all observers + ToJSON) identical to before; success => content equals what a reference decoder (encoding/json into plain Go values + the kind's normalisation) says the bytes denote, success on invalid JSON is a violation; afterwards the run continues under the C01-C06/C09/C10/C15 oracles. The thorough tier additionally enumerates, for a snapshot, every truncation offset, every single-bit flip and every single-byte structural overwrite (fault enumeration); everything else is sampled, including loads onto containers of 1000-2200 elements.", "4 C12, 3.5"),
  "C13": ("exploration", "seeded history simulation of two sets vs set-algebra reference model, independence probes by mutation",
          "Pairs of sets of the same kind built by seeded histories (free, disjoint, nested, equal, one empty, either larger, same object as both operands); members of Intersection/Union/Difference are compared with the model, operands must be observably unchanged, then result, a and b are mutated in turn and the others must not move; TreeSet results must stay ascending under the operands' comparator after further Adds, and results are used as operands of further algebra (chaining). " + DEGENERATE, "4 C13"),
@@ -60,7 +60,7 @@ EXTRA = {
  "C09": " Scale runs (33 000-70 000 keys in insertion order through removal, Clear and re-use). The containers' own iterators are walked in both directions against Keys()/Values().",
  "C10": " Scale runs (33 000-70 000 pairs, Get/GetKey by arithmetic, through removal, Clear and re-use).",
  "C11": " Value shapes include containers as values of containers (recursive ToJSON); the key pools end in pairs that collide under common 32-bit hashes. The histories contain read-only and enumerable calls (what a read leaves behind must not outlive a restart); the reloaded container's iterators are walked both ways and Each is judged against them.",
- "C12": " Two further fault kinds: F15 permuted elements/members and F16 a second member whose name is another spelling of a present key; one large run in three produces documents beyond 64 KiB. F17 foreign writer: documents written under another order (several distinct keys of the document are one key for the loading container's comparator) and, in a probe of its own, freely spelled member names for a key type that implements encoding.TextUnmarshaler. The histories contain read-only and enumerable calls, one load in three is directly preceded by one; after every load the iterators are walked both ways and Each/Any/All/Find are judged against them.",
+ "C12": " Two further fault kinds: F15 permuted elements/members and F16 a second member whose name is another spelling of a present key; one large run in three produces documents beyond 64 KiB. F17 foreign writer: documents written under another order (several distinct keys of the document are one key for the loading container's comparator) and, in a probe of its own, freely spelled member names for a key type that implements encoding.TextUnmarshaler. The histories contain read-only and enumerable calls, one load in three is directly preceded by one; after every load the iterators are walked both ways and Each/Any/All/Find are judged against them. F18 null elements, also as the second half of reject-then-accept pairs (a document with one wrongly typed element after good ones directly followed by an accepted one with nulls or partial structs, half the time right after a Clear).",
  "C13": " Algebra calls with a TreeSet of another comparator function are interleaved (result unjudged, operands and later same-comparator algebra judged); scale runs with operands of 33 000-70 000 members. Every algebra call is made twice: the second result is left alone while the first result and both operands are mutated (also through Clear, a load that fails and a load that succeeds), must still hold what the call returned, and is then emptied.",
  "C14": " Float elements (both zeros, infinities, NaN keys for the tree kinds); a result must serialise like a fresh container holding the same elements.",
  "C15": " Scale runs: Clear of 33 000-70 000 elements compared with a fresh instance.",
